@@ -101,6 +101,8 @@ CONTRACTS = [
     Contract(OH + "::OutputHandler.finish", props=["C10", "C06"],
              modifies=["OutputHandler._tee_future@self", "OutputHandler._file@self", "Future.g_joined", "File.g_closed"],
              ensures=[C("tee_joined", "implies(self._type == RecordType.Teed and old(self._tee_future) is not None, old(some(self._tee_future)).g_joined and self._tee_future is None)"),
-                      C("log_file_closed", "implies(self._type == RecordType.OnlyLogged and old(self._file) is not None, old(some(self._file)).g_closed and self._file is None)")],
+                      C("log_file_closed", "implies(self._type == RecordType.OnlyLogged and old(self._file) is not None, old(some(self._file)).g_closed and self._file is None)"),
+                      C("otherwise_untouched", "implies(not (self._type == RecordType.Teed and old(self._tee_future) is not None), self._tee_future == old(self._tee_future)) and"
+                                               " implies(not (self._type == RecordType.OnlyLogged and old(self._file) is not None), self._file == old(self._file))")],
              raises={"Exception+": []}),
 ]
